@@ -15,6 +15,7 @@ of `self`, or a parameter of a public function) and classifies every rooted site
 
 Accumulating and public sites are frozen in a reviewed table, one reason each; a site outside the table is the violation.
 """
+import json
 import re
 from collections import defaultdict
 
@@ -707,3 +708,125 @@ def cr_pop_rule(ctx, rule, scope_rx, floor):
                         ctx.ok(rule, "%s -> %s" % (lf.key, fk.split("::")[-1]), "the buffer is empty at the call (reset on every path, no writer in between)", f.loc(bi))
     ctx.count("unguarded_cr_poppers", len(poppers))
     ctx.floor(rule, "CR pops on a caller-provided buffer", npop, floor)
+
+
+# ---------------------------------------------------------------------------------------------------------------------------------
+# memo coherence: `if cur != prev { cache = compute(cur) } .. prev = cur` inside a loop
+def memo_sites(f):
+    """Loop-carried memos: a comparison (PartialEq::ne / eq) of a loop-carried local K (`prev`) with a place P, a value local V assigned
+    on the 'differs' side only, and an assignment K = P somewhere in the loop. Returns one dict per (K, comparison) with the blocks where
+    K is updated although, on some path of that iteration, neither V was refreshed nor the 'same' edge was taken."""
+    out = []
+    loops = C.natural_loops(f)
+    if not loops:
+        return out
+    defs = C.defs(f)
+
+    def ref_place(op):
+        l = C.op_local(op)
+        if l is None:
+            return None
+        d = C.single_def(f, l)
+        if d is not None and d[0] == "=" and d[3][0] == "ref":
+            return d[3][2]
+        return None
+
+    for b, c in f.calls():
+        fk = c.get("f") or ""
+        m = re.search(r"cmp::PartialEq(<.*>)?>?::(ne|eq)$", fk)
+        if not m or len(c["args"]) != 2:
+            continue
+        mine = [(h, body) for h, body in loops if b in body]
+        if not mine:
+            continue
+        body = set().union(*[bd for _h, bd in mine])
+        heads = {h for h, _bd in mine}
+        p0, p1 = ref_place(c["args"][0]), ref_place(c["args"][1])
+        if p0 is None or p1 is None:
+            continue
+        for kp, other in ((p0, p1), (p1, p0)):
+            if kp[1]:
+                continue            # the key is a bare local
+            K = kp[0]
+            # K is assigned inside the loop from the other operand's place
+            ak = []
+            for bi in body:
+                for st in f.blocks[bi]["s"]:
+                    if st[0] == "=" and st[1][0] == K and not st[1][1] and st[2][0] == "use":
+                        pl = C.op_place(st[2][1])
+                        if pl is not None and not pl[1]:      # through one temporary: `_t = copy (*record).id; prev = move _t`
+                            d1 = C.single_def(f, pl[0])
+                            if d1 is not None and d1[0] == "=" and d1[3][0] == "use" and C.op_place(d1[3][1]) is not None:
+                                pl = C.op_place(d1[3][1])
+                        if pl is not None and json.dumps(pl) == json.dumps(other):
+                            ak.append(bi)
+            if not ak:
+                continue
+            nxt = c.get("t")
+            if nxt is None or f.blocks[nxt]["t"][0] != "sw":
+                continue
+            t = f.blocks[nxt]["t"]
+            vals = dict((v, tg) for v, tg in t[2])
+            if 0 not in vals:
+                continue
+            zero, nonzero = vals[0], t[3]
+            differs, same = (nonzero, zero) if m.group(2) == "ne" else (zero, nonzero)
+            # V: named locals assigned only in blocks dominated by the differs target (inside the loop) and read elsewhere
+            dom_region = {x for x in body if C.dominates(f, differs, x)}
+            named = {int(i) for i, _n in f.names}
+            vs = {}
+            for bi in dom_region:
+                blk = f.blocks[bi]
+                for st in blk["s"]:
+                    if st[0] == "=" and not st[1][1] and st[1][0] in named and st[1][0] != K:
+                        vs.setdefault(st[1][0], set()).add(bi)
+                tt = blk["t"]
+                if tt[0] == "call" and tt[1].get("dest") and not tt[1]["dest"][1] and tt[1]["dest"][0] in named and tt[1]["dest"][0] != K:
+                    vs.setdefault(tt[1]["dest"][0], set()).add(bi)
+            # keep those whose every in-loop assignment lies in the region (a value refreshed only when the key differs)
+            keep = {}
+            for V, blks in vs.items():
+                allb = set()
+                for bi in body:
+                    for st in f.blocks[bi]["s"]:
+                        if st[0] == "=" and st[1][0] == V and not st[1][1]:
+                            allb.add(bi)
+                    tt = f.blocks[bi]["t"]
+                    if tt[0] == "call" and tt[1].get("dest") and tt[1]["dest"][0] == V and not tt[1]["dest"][1]:
+                        allb.add(bi)
+                if allb and allb <= dom_region:
+                    keep[V] = allb
+            if not keep:
+                continue
+            refresh = set().union(*keep.values())
+            # one iteration: from each loop head, never re-enter a head, never pass a refresh block or the `same` edge
+            bad = []
+            for h in heads:
+                reach = C.reachable(f, h, removed=(refresh | (heads - {h})) | (set(range(len(f.blocks))) - body),
+                                    removed_edges={(nxt, same)} | {(x, h) for x in body})
+                bad += [a for a in ak if a in reach]
+            out.append({"fn": f.key, "key": K, "values": sorted(keep), "cmp": b, "updates": sorted(set(ak)), "bad": sorted(set(bad))})
+    return out
+
+
+def memo_coherence_rule(ctx, rule, scope_rx):
+    fb = ctx.fb
+    n = 0
+    names = {}
+    for k, f in sorted(fb.fns.items()):
+        if not f.blocks or not re.search(scope_rx, k) or not getattr(f, "names", None):
+            continue
+        for s_ in memo_sites(f):
+            n += 1
+            ctx.saw_fn(f)
+            nm = {int(i): x for i, x in f.names}
+            if s_["bad"]:
+                ctx.violation(rule, "%s/stale-memo/%s/%s" % (rule, f.root, nm.get(s_["key"], s_["key"])),
+                              "%s keeps `%s` as the key of a loop-carried memo (%s refreshed only when the key differs) but updates the key on a "
+                              "path of the iteration that passes neither the refresh nor the equal edge: the next iteration finds an equal "
+                              "key and reuses the value of an older one" % (
+                                  f.root, nm.get(s_["key"], s_["key"]), ", ".join("`%s`" % nm.get(v, v) for v in s_["values"])), f.loc(s_["bad"][0]))
+            else:
+                ctx.ok(rule, "%s :: memo keyed by `%s`" % (f.root, nm.get(s_["key"], s_["key"])),
+                       "every update of the key passes the refresh of %s or the equal edge" % ", ".join("`%s`" % nm.get(v, v) for v in s_["values"]), f.loc(s_["cmp"]))
+    return n
